@@ -4,6 +4,7 @@ CONSTANTS Keys = {1}
           N = 2
           BaseMax = 0
           Workers = {1, 2, 3, 4}
+          SchedMuts = FALSE
           Sched = TRUE
           EmitCases = TRUE
 INVARIANTS HonestAccepted ParallelEqualsSequential WrongBALRejected ScheduleIndependent CacheIsBase WorkerBound HistLegal
